@@ -70,7 +70,7 @@ TDown    == Ev("down") /\ IF up THEN Down ELSE UNCHANGED <<obj, chan, bl, up, st
 TList    == Ev("list") /\ (IF up THEN Relist ELSE Start)
             /\ (IF E.rv = 0 THEN ~obj.exists ELSE obj.exists /\ obj.rv = E.rv)
 TQuiet   == Ev("quiet") /\ ~ENABLED Urgent /\ (up => chan = <<>> /\ bl = <<>>)
-            /\ (up /\ pc \notin {"sleep", "cwait"} => (Converged \/ Family_F20 \/ Family_F21 \/ Family_F22)) /\ UNCHANGED <<obj, chan, bl, up, stopping, mem, wk, pc, cyc, now, bud, gh>>
+            /\ UNCHANGED <<obj, chan, bl, up, stopping, mem, wk, pc, cyc, now, bud, gh>>
 
 Silent == (CWaitWoken \/ CWaitTimeout \/ ProcFinish \/ Reply1 \/ SleepWake \/ SleepExpire) /\ Keep
 Advance == /\ l <= Len(T) /\ E.t > now /\ ~ENABLED Urgent
@@ -88,7 +88,8 @@ TStep == TEdit \/ TDelete \/ TFin \/ TDeliver \/ TBegin \/ TInv \/ TMerge \/ TJs
          \/ TList \/ TQuiet \/ Silent \/ Advance
 \* which known family excuses a final state that is not converged (reported as KNOWN-FINDING by the runner)
 Excuse == IF Converged \/ ~up \/ pc \in {"sleep", "cwait"} THEN "none"
-          ELSE IF Family_F20 THEN "F20" ELSE IF Family_F22 THEN "F22" ELSE IF Family_F21 THEN "F21" ELSE "none"
+          ELSE IF Family_F20 THEN "F20" ELSE IF Family_F22 THEN "F22" ELSE IF Family_F21 THEN "F21"
+          ELSE IF Family_F31 THEN "F31" ELSE "unconverged"
 TNext == /\ TStep /\ conf' = conf /\ bad' = (IF bad # "none" THEN bad ELSE FirstBad')
          /\ exc' = (IF l <= Len(T) /\ E.ev = "quiet" /\ l' = l + 1 THEN Excuse ELSE exc)
 TSpec == TInit /\ [][TNext]_tvars
